@@ -1,5 +1,7 @@
 // C16 harness: DensityGrid / HierarchicalDensityPlacement / DensityLegalizer of /repo's working tree
-//   density gen SEED COUNT [heavy|split]   case lines from a seeded splitmix64 (split: "SP ..." lines, see runSplit)
+//   density gen SEED COUNT [heavy|split|nofree]   case lines from a seeded splitmix64 (split: "SP ..." lines, see runSplit;
+//                                      nofree: HC circuits WITHOUT free space -- every row covered by fixed obstructions, one macro over
+//                                      all rows or one obstruction per row leaving at most slivers <= 2*margin: finding F28)
 //   density run < cases                one trace line per case
 //
 // case lines (ints only):
@@ -365,11 +367,11 @@ static std::vector<Seg> genRows(SplitMix &r, int ox, int oy, int H, int &outMaxW
   return segs;
 }
 
-static std::string genCase(SplitMix &r, bool heavy) {
+static std::string genCase(SplitMix &r, bool heavy, bool nofree = false) {
   std::string s; auto put = [&](long long v) { s += " " + std::to_string(v); };
   int H = 1 << r.uni(0, 3); int ox = (int)r.uni(-60, 60), oy = (int)r.uni(-60, 60);
   if (r.coin(10)) { ox *= 1000; oy *= 1000; }
-  bool circuit = r.coin(30);
+  bool circuit = r.coin(30) || nofree;
   int W; std::vector<Seg> segs = genRows(r, ox, oy, H, W);
   if (!circuit && r.coin(4)) segs.clear();
   if (!circuit && r.coin(3)) { segs.clear(); segs.push_back({ox, ox + (int)(r.coin(50) ? 0 : r.uni(1, 9)), oy, oy + (int)(r.coin(50) ? 0 : H)}); }
@@ -399,17 +401,36 @@ static std::string genCase(SplitMix &r, bool heavy) {
     s = "HC"; put(binSize); put(margin);
     int nrows = r.uni(1, 6); put(nrows);
     int y = oy; int rw = r.uni(1, 60);
+    std::vector<std::array<long long, 3> > rws;   // (minX, maxX, minY) of every row
     for (int i = 0; i < nrows; ++i) {
       if (r.coin(15)) y += H;
       long long ra = ox + (r.coin(20) ? r.uni(0, 5) : 0), rb = ox + rw - (r.coin(20) ? r.uni(0, 5) : 0);
       if (rb < ra) rb = ra;   // inverted rectangles are outside the domain (C15)
       put(ra); put(rb); put(y); put(y + H); put(r.uni(0, 7));
+      rws.push_back({ra, rb, y});
       y += H;
     }
     int top = y;
     int nfixed = r.uni(0, 5);
     int nmov = std::max(1, ncells);
-    put(nfixed + nmov);
+    // nofree: obstructions that leave no free space (finding F28): one macro over all rows, or one obstruction per row that leaves
+    // at most a piece of width <= 2*margin at each end (dropped by the side margin)
+    bool perRow = nofree && r.coin(50);
+    int nextra = nofree ? (perRow ? nrows : 1) : 0;
+    put(nfixed + nextra + nmov);
+    if (nofree && !perRow) {
+      long long ex = r.uni(0, 3), fw = rw + 2 * ex, fh = (top - oy) + 2 * ex;
+      put(ox - ex); put(oy - ex); put(fw); put(fh); put(0); put(1); put(1);
+      cells0.push_back({1, fw, fh});
+    } else if (nofree) {
+      for (auto &q : rws) {
+        long long sl = margin > 0 ? r.uni(0, 2 * margin) : 0, sr = margin > 0 ? r.uni(0, 2 * margin) : 0;
+        if (q[1] - q[0] <= sl + sr) sl = sr = 0;
+        long long fw = (q[1] - sr) - (q[0] + sl);
+        put(q[0] + sl); put(q[2]); put(fw); put(H); put(0); put(1); put(1);
+        cells0.push_back({1, fw, (long long)H});
+      }
+    }
     avg = std::max(1LL, (long long)rw * (top - oy) * util / 100 / nmov);
     for (int i = 0; i < nfixed; ++i) {   // obstructions (some flagged non-obstruction, some outside)
       long long fw = r.uni(0, std::max(1, rw / 3)), fh = H * r.uni(0, 3);
@@ -423,7 +444,7 @@ static std::string genCase(SplitMix &r, bool heavy) {
       put(ox + r.uni(0, rw)); put(oy + r.uni(0, top - oy)); put(ww); put(hh); put(0); put(0); put(r.coin(50));
       cells0.push_back({0, ww, hh});
     }
-    ncells = nfixed + nmov;
+    ncells = nfixed + nextra + nmov;
     minX = ox; maxX = ox + rw; minY = oy; maxY = top;
     degenerate = false;  // decided at run time by the harness guards for 9/10; run()/improve() need a non-empty grid:
     // the generator cannot know whether every row is clipped away; such cases are recognised by the checker (area 0)
@@ -436,8 +457,8 @@ int main(int argc, char **argv) {
   std::string mode = argc > 1 ? argv[1] : "run";
   if (mode == "gen") {
     SplitMix r(strtoull(argv[2], nullptr, 10)); int count = atoi(argv[3]); bool heavy = argc > 4 && std::string(argv[4]) == "heavy";
-    bool split = argc > 4 && std::string(argv[4]) == "split";
-    for (int i = 0; i < count; ++i) printf("%s\n", split ? genSplit(r).c_str() : genCase(r, heavy).c_str());
+    bool split = argc > 4 && std::string(argv[4]) == "split", nofree = argc > 4 && std::string(argv[4]) == "nofree";
+    for (int i = 0; i < count; ++i) printf("%s\n", split ? genSplit(r).c_str() : genCase(r, heavy, nofree).c_str());
     return 0;
   }
   vh_install(); vh_silence();
